@@ -469,3 +469,24 @@ PROPS["C17"]["explanation"] += (" Model correspondence: DM/Model/Path.lean model
     " splice positions and the drained list of alternatives, compress_path - with the `expect` an explicit panic outcome; on every bitmap of the sweep the model must return exactly the"
     " implementation's segment list (M lines), so the certified checker is also run, implicitly, on the model's output.")
 PROPS["C17"]["technique"] = "certified checker (Lean theorem: accepted => even-odd fill = bitmap) run on every implementation output + Lean model of path() compared segment by segment"
+
+# ---- C18: the exact latch sequence (Lemmas/LatchSeq.lean, Props/C18.lean) ----
+PROPS["C18"]["lean"] = list(PROPS["C18"]["lean"]) + ["DM.Props.C18"]
+PROPS["C18"]["explanation"] += (" Latch sequence (DM/Props/C18.lean): latch_sequence_segments / latch_sequence - for every plan within the round-trip side condition whose positions never increase and lie within the"
+    " message (both are theorems about the planner: latch_sequence_optimized discharges them with plan_positions), the latches at the segment starts of the encoder model's output are exactly"
+    " plannedLatches plan: walk the entries with a positive position starting in ASCII mode, an entry of the current mode changes nothing, any other entry changes the mode and contributes its latch unless it is ASCII -"
+    " 'the non-ASCII modes to which the plan assigns at least one character, in the same order'. Each call of a mode encoder pops entries of the current mode and at most one other entry; the end-game truncation"
+    " (set_ascii_until_end) only drops entries that cause no latch. Both hypotheses are necessary (counterexamples in the file).")
+PROPS["C18"]["level_text"] = ("Partial proof: plan shape (enabled modes only, positions non-increasing ending at 0), planner totality, and 'the latches in the encoder's output are exactly the planned non-ASCII mode"
+    " changes, in plan order' (latch_sequence, for plans within the round-trip side condition) are theorems about the models; that the predicted size is met is exploration with oracle plus planner/encoder model correspondence.")
+PROPS["C18"]["unproved"] = ["planner_predicts_size: the encoder never needs a larger symbol than the planner's cost predicts; latch_sequence for plans using EDIFACT or latching into a non-ASCII mode within the last four characters"]
+
+# ---- C05: the Reed-Solomon decoder reaches no index / division / assertion panic site (Lemmas/RSTotal.lean) ----
+PROPS["C05"]["explanation"] += (" rs_decode_panics_only_algebraic (DM/Props/C05.lean, proved in DM/Lemmas/RSTotal.lean with a weakest-precondition calculus over the do-notation model): for every symbol size and every"
+    " codeword vector of the size's length the Reed-Solomon decoder model - syndromes, Levinson-Durbin incl. the singular case, Chien search, malfunction test, Bjorck-Pereyra, correction, the interleaving loop -"
+    " reaches none of its index, slice, subtraction, division and assert! panic sites (loop invariant 1 <= v <= t, |w| = |y| = v; pivots, eps_v, sigma_m non-zero where divided by; Chien roots pairwise distinct and non-zero,"
+    " so the divided differences and 1/z are defined; locations are non-zero, so log is defined); the only panic outcomes left are the debug re-checks of the Levinson-Durbin identities (3) and (4), which exist only in builds with debug assertions;"
+    " the decoder terminates by construction and a success preserves the length (rs_decode_length); chien_search_total, levinson_durbin_panics_only_algebraic.")
+PROPS["C05"]["level_text"] = ("Partial proof: the data decoder, the string decoder and the bitmap parser are total for all inputs; the Reed-Solomon decoder reaches none of its index / slice / subtraction / division / assert! panic sites"
+    " for any word of the right length (theorems about the models, all inputs) - in release builds it therefore cannot panic; that its two debug re-checks of the Levinson-Durbin identities never fire is decided by model correspondence (checked profile) on crafted-syndrome and random words.")
+PROPS["C05"]["unproved"] = ["ld_identities: the debug assertions re-checking equations (3) and (4) of the Levinson-Durbin recursion never fire (the algebraic correctness of the recursion incl. its singular case)"]
